@@ -4,18 +4,42 @@
 ; A token sequence is given as (A, off, n): the n tokens A[off+0] .. A[off+n-1] (relative indices,
 ; the same term shape the VC generator produces for ts[j]).
 (define-fun allatoms ((A (Array Int Token)) (off Int) (n Int)) Bool
-  (and (> n 0) (forall ((j Int)) (=> (and (<= 0 j) (< j n)) (= (Token_tType (select A (+ off j))) 1)))))
+  (and (> n 0) (forall ((j Int)) (=> (and (<= 0 j) (< j n)) (= (Token_tType (select A (idx off j))) 1)))))
 (define-fun allone ((A (Array Int Token)) (off Int) (n Int)) Bool
-  (forall ((j Int)) (=> (and (<= 0 j) (< j n)) (= (clen (Token_value (select A (+ off j)))) 1))))
+  (forall ((j Int)) (=> (and (<= 0 j) (< j n)) (= (clen (Token_value (select A (idx off j)))) 1))))
 (define-fun alternating ((A (Array Int Token)) (off Int) (n Int)) Bool
   (and (= (mod n 2) 1) (>= n 3)
-       (forall ((j Int)) (=> (and (<= 0 j) (< j n)) (= (Token_tType (select A (+ off j))) (ite (= (mod j 2) 0) 1 0))))))
-(define-fun kindOf ((A (Array Int Token)) (off Int) (n Int)) Int
-  (ite (and (allatoms A off n) (allone A off n)) 0 (ite (allatoms A off n) 1 (ite (alternating A off n) 2 3))))
+       (forall ((j Int)) (=> (and (<= 0 j) (< j n)) (= (Token_tType (select A (idx off j))) (ite (= (mod j 2) 0) 1 0))))))
+; kindOf is opaque in most verification conditions: callers only need that the index's kind byte
+; and Kind() are the same value, plus the cheap consequences below. Its definition (from the
+; documentation: character password / all atoms / strictly alternating / anything else) is revealed
+; to the functions that compute it by listing KINDOF-def under "uses".
+(declare-fun kindOf ((Array Int Token) Int Int) Int)
+;;@ axiom KINDOF-def optin trigger=kindOf :: DEFINITION of the spec function kindOf (index kind of a token sequence, from the documentation of MakeIndices)
+(assert (forall ((A (Array Int Token)) (off Int) (n Int)) (! (= (kindOf A off n)
+  (ite (and (allatoms A off n) (allone A off n)) 0 (ite (allatoms A off n) 1 (ite (alternating A off n) 2 3)))) :pattern ((kindOf A off n)))))
+;;@ axiom KINDOF-elim trigger=kindOf :: consequences of the definition of kindOf (each follows from KINDOF-def; lemma L-kindof-elim)
+(assert (forall ((A (Array Int Token)) (off Int) (n Int)) (! (and (<= 0 (kindOf A off n)) (<= (kindOf A off n) 3)
+   (=> (= (kindOf A off n) 0) (and (allatoms A off n) (allone A off n)))
+   (=> (= (kindOf A off n) 1) (allatoms A off n))
+   (=> (= (kindOf A off n) 2) (alternating A off n))) :pattern ((kindOf A off n)))))
 
 ; concatenation of token values: catTok(A, off, n) = value(A[off]) ++ ... ++ value(A[off+n-1])
 (declare-fun catTok ((Array Int Token) Int Int) Str)
 ;;@ axiom CATTOK-empty trigger=catTok :: definition of catTok (no tokens)
 (assert (forall ((A (Array Int Token)) (off Int) (n Int)) (! (=> (<= n 0) (= (catTok A off n) eps)) :pattern ((catTok A off n)))))
 ;;@ axiom CATTOK-step trigger=catTok :: definition of catTok (append the last token)
-(assert (forall ((A (Array Int Token)) (off Int) (n Int)) (! (=> (> n 0) (= (catTok A off n) (cat (catTok A off (- n 1)) (Token_value (select A (+ off (- n 1))))))) :pattern ((catTok A off n)))))
+(assert (forall ((A (Array Int Token)) (off Int) (n Int)) (! (=> (>= n 0) (= (catTok A off (+ n 1)) (cat (catTok A off n) (Token_value (select A (idx off n)))))) :pattern ((catTok A off (+ n 1)) (catTok A off n)))))
+
+; character-count prefix sums of a token sequence: csum(A, off, j) = sum_{k<j} clen(value(A[off+k]))
+(declare-fun csum ((Array Int Token) Int Int) Int)
+;;@ axiom CSUM-zero trigger=csum :: definition of csum (base)
+(assert (forall ((A (Array Int Token)) (off Int)) (! (= (csum A off 0) 0) :pattern ((csum A off 0)))))
+;;@ axiom CSUM-step trigger=csum :: definition of csum (step)
+(assert (forall ((A (Array Int Token)) (off Int) (j Int)) (! (=> (>= j 0) (= (csum A off (+ j 1)) (+ (csum A off j) (clen (Token_value (select A (idx off j))))))) :pattern ((csum A off (+ j 1)) (csum A off j)))))
+;;@ axiom CSUM-mono optin trigger=csum :: PROVED (lemma L-csum-mono, induction): csum is non-decreasing
+(assert (forall ((A (Array Int Token)) (off Int) (i Int) (j Int)) (! (=> (and (<= 0 i) (<= i j)) (<= (csum A off i) (csum A off j))) :pattern ((csum A off i) (csum A off j)))))
+(define-fun allutf8 ((A (Array Int Token)) (off Int) (n Int)) Bool
+  (forall ((j Int)) (=> (and (<= 0 j) (< j n)) (utf8ok (Token_value (select A (idx off j)))))))
+;;@ axiom CSUM-nonneg optin trigger=csum :: PROVED (consequence of CSUM-zero and CSUM-mono, lemma L-csum-nonneg): prefix sums of character counts are non-negative
+(assert (forall ((A (Array Int Token)) (off Int) (j Int)) (! (=> (>= j 0) (>= (csum A off j) 0)) :pattern ((csum A off j)))))
